@@ -1100,7 +1100,8 @@ where
             Filter::BorrowedText(reftext, textmode, _) => {
                 let text = textselection.text();
                 if *textmode == TextMode::CaseInsensitive {
-                    text.to_lowercase().as_str() == *reftext
+                    //(a borrowed reference text is not lowercased yet)
+                    text.to_lowercase() == reftext.to_lowercase()
                 } else {
                     text == *reftext
                 }
